@@ -153,6 +153,24 @@ def cases(rng, tier):
             yield ("poly touches %s %s" % (hexcsv(cs), fhex(y)), "aimed-touches-reversal")
             yield ("poly solve %s %s" % (hexcsv(cs), fhex(y)), "aimed-solve-reversal")
         yield ("poly extrema %s" % hexcsv(cs), "aimed-extrema-reversal")
+    # polynomials that are merely small in scale (all coefficients around 1e-8 ... 1e-12): the roots and the shape are
+    # those of the unit-scale polynomial; only an exactly vanishing leading coefficient lowers the degree
+    for i in range(n // 4 if tier == "thorough" else n // 12):
+        deg = rng.choice([1, 2, 2, 3, 3])
+        while True:
+            base = [rnd_val(rng, 1) for _ in range(deg + 1)]
+            if well_conditioned(base):
+                break
+        sc = rng.choice([1e-8, 1e-9, 6.4e-8, 1e-12, 3e-11])
+        cs = [f32(c * sc) for c in base]
+        if not well_conditioned(cs) or any(c == 0.0 for c in cs[-1:]):
+            continue
+        vals = [sum(cf * (t / 8.0) ** j for j, cf in enumerate(cs)) for t in range(9)]
+        lo, hi = min(vals), max(vals)
+        for y in (f32(rng.uniform(lo, hi)), f32(rng.uniform(lo, hi))):
+            yield ("poly solve %s %s" % (hexcsv(cs), fhex(y)), "tiny-scale-solve%d" % deg)
+            yield ("poly touches %s %s" % (hexcsv(cs), fhex(y)), "tiny-scale-touches%d" % deg)
+        yield ("poly extrema %s" % hexcsv(cs), "tiny-scale-extrema%d" % deg)
     for i in range(60):
         cs = [rnd_val(rng, 100) for _ in range(rng.choice([5, 6, 8]))]
         yield ("poly extrema %s" % hexcsv(cs), "extrema-high")
